@@ -1,12 +1,22 @@
-(* C06/Run.v — input [mode init_ok sign_ok apply_ok amqp_conf file_conf amqp_ok file_ok]; mode 0 server, 1 standalone
-   output [responds_200_or_success ok_amqp_records ok_file_records] *)
+(* C06/Run.v — input [mode ...]
+   mode 0 (server) / 1 (standalone): [mode init_ok sign_ok apply_ok amqp_conf file_conf amqp_ok file_ok]
+     output [responds_200_or_success ok_amqp_records ok_file_records amqp_attempts file_attempts]
+   mode 2 (a sequence of server requests on one configuration): [2 amqp_conf file_conf [[init_ok sign_ok amqp_ok file_ok] ...]]
+     output [count_200 ok_amqp_records ok_file_records amqp_attempts] *)
 From Relic Require Import Base.Prelude Base.Val Generated.C06_gen C06.Model.
+Definition nz (n : nat) : val := VZ (Z.of_nat n).
 Definition run (v : val) : val :=
   let b n := vbool (vnth n v) in
+  let mode := vz (vnth 0 v) in
+  if mode =? 2 then
+    let rs := map (fun r => mkReq (vbool (vnth 0 r)) (vbool (vnth 1 r)) (vbool (vnth 2 r)) (vbool (vnth 3 r))) (vl (vnth 3 v)) in
+    let t := serve_all (b 1%nat) (b 2%nat) rs in
+    VL [nz (count_200 t); nz (count_ok_amqp t); nz (count_ok_append t); nz (attempts_amqp t)]
+  else
   let s := mkSinks (b 4%nat) (b 5%nat) (b 6%nat) (b 7%nat) in
-  if vz (vnth 0 v) =? 0 then
+  if mode =? 0 then
     let t := serve_sign (b 1%nat) (b 2%nat) s in
-    VL [of_bool (responds_200 t); VZ (Z.of_nat (count_ok_amqp t)); VZ (Z.of_nat (count_ok_append t))]
+    VL [of_bool (responds_200 t); nz (count_ok_amqp t); nz (count_ok_append t); nz (attempts_amqp t); nz (attempts_append t)]
   else
     let '(t, ok) := sign_cmd (b 1%nat) (b 2%nat) (b 3%nat) s in
-    VL [of_bool ok; VZ (Z.of_nat (count_ok_amqp t)); VZ (Z.of_nat (count_ok_append t))].
+    VL [of_bool ok; nz (count_ok_amqp t); nz (count_ok_append t); nz (attempts_amqp t); nz (attempts_append t)].
